@@ -6,6 +6,7 @@ import JanetModel.Strtod.ScanLemmas
 import JanetModel.Strtod.Extract
 import JanetModel.Strtod.Ldexp
 import JanetModel.Strtod.Approx
+import JanetModel.Strtod.EndToEnd
 
 namespace JanetModel.Props.C13
 open JanetModel.Strtod JanetModel.Gen.Strtod
@@ -369,7 +370,10 @@ theorem seventeen_digits_suffice (N D T : Nat) (hD : 0 < D) (hT : T < 2 ^ 53)
     NOT proved (gap): (i) that `fmtG 17` / libc `%.17g` yields such an approximation (correct rounding of the printing side:
     absolute error ≤ 10^(k−16)/2 with 10^k ≤ x); (ii) that the double lies on the reader's final grid with T < 2^53 — for a
     power of two approached from below this uses |d − x| < 2^(E−2), which the same bound gives because x = 2^52·2^E there;
-    (iii) the scanner plumbing from the printed characters to (mant, 10, ex).  All three are exercised on every run
+    ((iii) the scanner plumbing from the printed characters to (mant, 10, ex) is now closed by `scan_number_faithful`.)
+    Note faithful ≠ nearest: the round trip needs the reader's NEAREST-ness (`NearestUpN`, proved for the normal range by
+    `extract_faithful_*`); in the subnormal range the reader is only faithful after the second rounding in `ldexp`, so the
+    round trip of subnormals rests on 17 digits being exact enough for the 2^−1074 grid (tested).  All are exercised on every run
     (`p17`: every binade boundary ±1, subnormals, DBL_MAX, −0, random patterns; 0 failures) and the reader's nearest-ness
     is additionally checked against exact arithmetic on every generated literal in the normal range. -/
 theorem print17_roundtrip_partial (t N D T : Nat) (hD : 0 < D) (hT : T < 2 ^ 53)
@@ -378,6 +382,71 @@ theorem print17_roundtrip_partial (t N D T : Nat) (hD : 0 < D) (hT : T < 2 ^ 53)
     (hclose_lo : (2 * 10 ^ 16 - 1) * (T * D) ≤ 2 * 10 ^ 16 * N) : t = T := by
   obtain ⟨h1, h2⟩ := seventeen_digits_suffice N D T hD hT hclose_hi hclose_lo
   exact hread.unique hD h1 h2
+
+/-! ### END TO END: `janet_scan_number_base` against the denoted value -/
+
+/-- ★★ `scan_number_faithful` — the whole reader in one statement.  For EVERY byte string `str` and radix parameter
+    `base0 ≤ 36` that the scanner accepts (`scanNumberBase str base0 = some bits`), with `l = denote str base0` the value
+    `± M·b^E` denoted by the text (Strtod/Denote.lean: sign, `_` separators, radix prefix `0x`/`Dr`/`DDr`, point,
+    exponent marker `e E & p P`, exponent sign and digits — defined from the grammar, no scanner state, no clamp):
+
+    * the sign bit of `bits` is the literal's sign and the magnitude pattern `mag` is `Adjacent` to the exact value
+      (in units of 2^−1074: numerator `M·b^max(E,0)·2^1074`, denominator `b^max(−E,0)`): every double strictly below the
+      result is strictly below the exact value and every double strictly above it is strictly above the exact value —
+      i.e. the result IS the exact value whenever a double has it (`scan_exact_when_representable`), otherwise it is one
+      of the two doubles adjacent to it; ±inf only when the value exceeds DBL_MAX, signed zero / smallest subnormal for
+      values below 2^−1074, subnormals on their own grid;
+    * the exponent handed to `convert` fits `int32_t` (no wrap in `ex -= ee` / `ex += ee` / `ex *= 4`).
+
+    Assembled from the scanner plumbing (`parseBody_spec`: digit accumulation, `ex` bookkeeping, `seenpoint`, leading
+    zeros, separators, marker, exponent digits with the clamp) and `convert_adjacent` (short-circuits, both scaling
+    chains, 54-bit extraction, all three `ldexp` regimes).
+    Hypotheses: `Log2Within1Ulp` (libm `log2`, named assumption) and `ClampSafe str.length` — discharged for every
+    length by `clamp_safe` on a tree whose exponent clamp saturates; on the pinned tree (digits dropped) it holds only
+    for literals up to (eeLimit − 1100)/4 ≈ 12.8 MiB and the statement is FALSE beyond (see `notes/C13.md`, finding
+    "exponent clamp": ".000…(53 687 000 zeros)…1e536870915" read as 1e90). -/
+theorem scan_number_faithful (str : List Nat) (base0 : Nat) (hb : base0 ≤ 36)
+    (hL : ∀ b, 2 ≤ b → b ≤ 36 → Log2Within1Ulp b) (hsafe : ClampSafe str.length)
+    (bits : Nat) (h : scanNumberBase str base0 = some bits) :
+    ∃ mag, bits = withSign (denote str base0).neg mag ∧
+      Adjacent mag ((denote str base0).M * (denote str base0).b ^ (denote str base0).E.toNat * 2 ^ 1074)
+        ((denote str base0).b ^ (-(denote str base0).E).toNat) ∧
+      ∃ p, parseNumber str base0 = some p ∧ p.ex.natAbs < 2 ^ 31 :=
+  scan_number_adjacent str base0 hb hL hsafe bits h
+
+/-- ★ the clamp side condition holds for EVERY length on the current tree: the regenerated constants say that the
+    exponent accumulator saturates (`eeSat ≠ 0`) at a value that dominates 4·lenLimit + 1100 and cannot overflow
+    `int32_t` when combined with the mantissa exponent.  (On the pinned tree `eeSat = 0` and this does not build.) -/
+theorem clamp_safe (n : Nat) : ClampSafe n := Or.inr (by decide)
+
+/-- ★ exact when representable: if some double (pattern `k`, or the overflow threshold) has exactly the denoted value,
+    the scanner returns that value -/
+theorem scan_exact_when_representable (mag N D k : Nat) (h : Adjacent mag N D) (hk : k ≤ infBits)
+    (hv : ulps k * D = N) : ulps mag = ulps k :=
+  h.exact k hk hv
+
+/-- ★ `convert` alone, for every mantissa the scanner can build, radix 2..36, |exponent| < 2^31 -/
+theorem convert_faithful (neg : Bool) (mant : BigNat) (base : Nat) (ex : Int) (hi : MantInv mant)
+    (hb2 : 2 ≤ base) (hb : base ≤ 36) (hex : ex.natAbs < 2 ^ 31) (hL : Log2Within1Ulp base) :
+    ∃ mag, convert neg mant base ex = withSign neg mag ∧
+      Adjacent mag (mant.val * base ^ ex.toNat * 2 ^ 1074) (base ^ (-ex).toNat) :=
+  convert_adjacent neg mant base ex hi hb2 hb hex hL
+
+/-- ★ the scanner plumbing against `denote`: same sign, radix, mantissa; exponents equal unless the clamp was reached -/
+theorem scanner_plumbing_correct (neg : Bool) (b : Nat) (s2 : List Nat) (p : Parsed) (hb1 : 1 ≤ b) (hb36 : b ≤ 36)
+    (hlen : s2.length ≤ lenLimit) (hsat : SatOK) (h : parseBody neg b s2 = some p) :
+    p.neg = (denoteBody neg b s2).neg ∧ p.base = (denoteBody neg b s2).b ∧ p.mant.val = (denoteBody neg b s2).M ∧
+    MantInv p.mant ∧ 1 ≤ p.base ∧ p.base ≤ 36 ∧ ExpOK s2.length p (denoteBody neg b s2) :=
+  parseBody_spec neg b s2 p hb1 hb36 hlen hsat h
+
+/-- non-vacuity: "-16r1f.8&-3" denotes −(0x1f8)·16^−4; "0x1.8p3" denotes 0x18·2^(3−4); "1_0.5e+2" denotes 105·10^1 -/
+example : denote [45, 49, 54, 114, 49, 102, 46, 56, 38, 45, 51] 0 = ⟨true, 504, 16, -4⟩ := by decide +kernel
+example : denote [48, 120, 49, 46, 56, 112, 51] 0 = ⟨false, 24, 2, -1⟩ := by decide +kernel
+example : denote [49, 95, 48, 46, 53, 101, 43, 50] 0 = ⟨false, 105, 10, 1⟩ := by decide +kernel
+/-- … and the scanner returns exactly 12.0 for "0x1.8p3" (0x4028000000000000), whose value is 24·2^−1 -/
+example : scanNumberBase [48, 120, 49, 46, 56, 112, 51] 0 = some 0x4028000000000000 := by decide +kernel
+example : ulps 0x4028000000000000 * 2 = 24 * 2 ^ 1074 := by decide +kernel
+example : ClampSafe 1000000 := clamp_safe _
 
 /-! ### non-vacuity -/
 
